@@ -357,7 +357,9 @@ ObsFails(C, E, n, m, ls, ln) ==
               txOK   == /\ SetEq(ln.ins, win({i \in A : E[i].cls = "in"}))
                         /\ SetEq(ln.outs, win({i \in A : E[i].cls = "out"}))
                         /\ SetEq(ln.intras, win({i \in A : E[i].cls = "intra"}))
-              f2     == IF txOK THEN {} ELSE {"C10.window_shows_exactly_the_dated_transactions"}
+              f2     == IF txOK THEN {}
+                        ELSE (IF windowed THEN {"C10.window_shows_exactly_the_dated_transactions"} ELSE {"C11.every_transaction_listed_once"})
+                             \cup (IF k < m \/ (to # MaxDay /\ from = MinDay) THEN {"C09.to_date_run_same_transactions"} ELSE {})
               f3     == IF SetEq(ln.tev, win(Events(E, A))) THEN {}
                         ELSE IF windowed THEN {"C10.window_shows_exactly_the_dated_taxable_events"}
                         ELSE {"C03.taxable_event_set_is_exact"}
@@ -373,6 +375,7 @@ ObsFails(C, E, n, m, ls, ln) ==
               expBal == {<<a, L.bal[a].acq, L.bal[a].sent, L.bal[a].recv, L.bal[a].fin>> : a \in DOMAIN L.bal}
               balN   == {"C07.balances_equal_account_flows"}
                         \cup (IF to # MaxDay THEN {"C10.balances_reflect_history_up_to_to_date"} ELSE {})
+                        \cup (IF k < m \/ (to # MaxDay /\ from = MinDay) THEN {"C09.to_date_run_same_balances"} ELSE {})
               f5     == IF SetEq(ln.bal, expBal) THEN {} ELSE balN
               lotsTo == {i \in Lots(E, A) : Day(E[i]) <= to}
               unsold == Sum(lotsTo, LAMBDA i : E[i].amt)
@@ -404,7 +407,11 @@ ObsFails(C, E, n, m, ls, ln) ==
                           <<"W.C09.later_transactions_exist", (k < m \/ to # MaxDay) /\ Cardinality(FSall) < Len(fr) /\ FSall # {}>>,
                           <<"W.C10.window_hides_and_shows_fractions", windowed /\ FSwin # {} /\ Cardinality(FSwin) < Len(fr)>>,
                           <<"W.C10.from_date_hides_history_that_counts", from # MinDay /\ Cardinality(FSwin) < Cardinality(FSall)>> } : cc[2]}}
-              views  == f1 \cup f2 \cup f3 \cup f4 \cup f5 \cup f6 \cup f7 \cup f8 \cup f9
+              \* C06 within one run: without a from-date the summary is the fold of the very detail fractions that run shows
+              ownFS  == {[ev |-> g[1], lot |-> g[2], amt |-> g[3], proc |-> g[4], cost |-> g[5], gain |-> g[6], long |-> g[7]] : g \in ToSet(ln.fr)}
+              f10    == IF from # MinDay \/ (\E g \in ToSet(ln.fr) : ~(g[1] \in A)) \/ ToSet(ln.yr) = Summary(E, ownFS, 0) THEN {}
+                        ELSE {"C06.summary_lines_are_sums_of_the_detail_fractions_shown"}
+              views  == f1 \cup f2 \cup f3 \cup f4 \cup f5 \cup f6 \cup f7 \cup f8 \cup f9 \cup f10
           IN f0 \cup w
              \cup (IF to # MaxDay /\ CutAmbiguous(E, A, to)
                    THEN (IF views # {} THEN {"K.C10.D8.to_date_cut_stops_at_first_entry_dated_past_the_bound"} ELSE {"W.C10.mixed_offsets_around_to_date"})
